@@ -29,6 +29,18 @@ MUTANTS = {
     "map_mangled_const": ("recode.py", 'map_mangled = f"___MAP{ovld.id}"', 'map_mangled = "___MAP_"', ["C08"]),
     "adapt_memo": ("recode.py", "def adapt_function(fn, ovld, newname):\n    \"\"\"Create a copy of the function with a different name.\"\"\"\n",
                    "_memo = {}\n\n\ndef adapt_function(fn, ovld, newname):\n    if fn not in _memo:\n        _memo[fn] = _adapt_function(fn, ovld, newname)\n    return _memo[fn]\n\n\ndef _adapt_function(fn, ovld, newname):\n", ["C08"]),
+    # ---- C02
+    "dominates_gt": ("typemap.py", "                s1 >= s2 for s1, s2 in zip(self.specificity, other.specificity)",
+                     "                s1 > s2 for s1, s2 in zip(self.specificity, other.specificity)", ["C02"]),
+    "tiebreak_ge": ("typemap.py", "            return self.tiebreak > other.tiebreak", "            return self.tiebreak >= other.tiebreak", ["C02"]),
+    "prio_ignored_when_spec_differs": ("typemap.py", "        if self.priority > other.priority:\n            return True\n        elif self.specificity != other.specificity:",
+                                       "        if self.specificity != other.specificity:", ["C02"]),
+    "sortkey_no_prio": ("typemap.py", "        return self.priority, sum(self.specificity), self.tiebreak", "        return sum(self.specificity), self.priority, self.tiebreak", ["C02"]),
+    "arity_filter_off": ("typemap.py", "                if sig.req_pos\n                <= nargs\n                <= (math.inf if sig.vararg else sig.max_pos)\n                and not (sig.req_names - names)",
+                         "                if not (sig.req_names - names)", ["C02", "C01"]),
+    "reqnames_filter_off": ("typemap.py", "                and not (sig.req_names - names)\n", "", ["C02", "C01"]),
+    "pushdown_tiebreak_plus": ("core.py", "msig = replace(sig, tiebreak=sig.tiebreak - 1)", "msig = replace(sig, tiebreak=sig.tiebreak + 1)", ["C02"]),
+    "resolve_uses_type": ("core.py", "        return self.map[tuple(map(subtler_type, args))]", "        return self.map[tuple(map(type, args))]", ["C14"]),
     # ---- C17
     "ext_first_base_only": ("core.py", "                for other in others:\n                    prev.add_mixins(other)\n", "", ["C17"]),
     "ext_no_copy": ("core.py", "                prev = prev.copy()\n                for other in others:", "                for other in others:", ["C17"]),
